@@ -64,6 +64,8 @@ def build_registry(mods):
     reg.models[common.prefix_join] = _texts.m_prefix_join
     reg.models[common.yielded] = _texts.m_yielded
     reg.models[common.peek] = _texts.m_peek
+    from . import textio as _textio
+    _textio.install(reg)
     reg.link()
     # loop specs keyed by (file, ast-qualname, ordinal)
     for (q, ordinal), ls in reg.loops.items():
